@@ -117,3 +117,13 @@ Example listing_example :
                                 ("bundles/repo/b1/bundle-files-0.yaml", []); ("bundles/repo/a b/x", [])]%string
   = ["bundles/repo/a b/"; "bundles/repo/b1/"]%string.
 Proof. vm_compute. reflexivity. Qed.
+
+(* deleting a name that is not a key - for instance the directory part of keys - changes nothing *)
+Lemma lremove_absent : forall k s, lget k s = None -> lremove k s = s.
+Proof.
+  induction s as [|[k' v] s IH]; intros H; [reflexivity|]. cbn in *.
+  destruct (String.eqb k k'); [discriminate|]. now rewrite IH.
+Qed.
+
+Theorem delete_nonkey : forall k s, lget k s = None -> ldelete k s = s.
+Proof. intros. unfold ldelete. now apply lremove_absent. Qed.
